@@ -13,14 +13,13 @@
 (*   SafeOn(db)      Eval(stmt, db) = Eval(stmt, Restrict(db, hints)):     *)
 (*                   a back-end honouring the row filters returns the same *)
 (*                   result as one ignoring them; Safe == \A db : SafeOn   *)
-(* Model checking (Hints.cfg generated per tier): the AS-IS hints of        *)
-(* FactorsImpl.tla are judged for every statement of the family Stmts      *)
-(* against EVERY database with <= MaxRows rows per table over Dom (the      *)
-(* universally quantified db is enumerated: Safe is decided, not sampled,  *)
-(* inside the bound).  The per-statement verdicts are exported; a violated *)
-(* clause is a design-level finding which the driver replays on the code.  *)
+(* Universe(tables, maxrows, dom) enumerates EVERY database with at most    *)
+(* maxrows rows per table over dom, so that the universally quantified db  *)
+(* of Safe is decided, not sampled, inside that bound (HintsMC.tla judges  *)
+(* the as-is hints of FactorsImpl.tla that way, TraceHints.tla the hints   *)
+(* recorded from the real parser).                                         *)
 (***************************************************************************)
-EXTENDS RelAlg, FactorsImpl, Json, TLCExt
+EXTENDS RelAlg
 
 (* ------------------------------ requirement ---------------------------- *)
 TableKeys(t) == [i \in DOMAIN t.cols |-> KeyOf(t, t.cols[i][1])]
@@ -59,112 +58,27 @@ ColumnsComplete(stmt, hs) ==
         \E i \in DOMAIN hs : hs[i].path = o.path /\ hs[i].table = o.table /\ o.used \subseteq hs[i].cols
 AllScoped(hs) == \A i \in DOMAIN hs : Scoped(hs[i])
 
-(* -------------------------- model checking harness --------------------- *)
-CONSTANTS Family,      \* name of the statement family (see Stmts)
-          Depth,       \* nesting depth of the generated predicates
-          MaxRows,     \* rows per table
-          WithNull     \* TRUE: cells range over {0, 1, NULL}, FALSE: over {0, 1}
+\* the disjuncts of an offered filter (Segment.predicate is the Or-reduction of the factors)
+RECURSIVE OrLeaves(_)
+OrLeaves(x) == IF x.f = "nil" THEN {}
+               ELSE IF x.f = "op" /\ x.op = "or" THEN OrLeaves(x.args[1]) \cup OrLeaves(x.args[2]) ELSE {x}
 
-\* the small world: A(x, y), B(x), C(x), integers; literal dictionary of the model
-TA == Src("table", "A", "", <<<<"x", "int">>, <<"y", "int">>>>, NilS, NilS, NilF, <<>>, NilF, <<>>, NilF, <<>>, <<>>)
-TB == Src("table", "B", "", <<<<"x", "int">>>>, NilS, NilS, NilF, <<>>, NilF, <<>>, NilF, <<>>, <<>>)
-TC == Src("table", "C", "", <<<<"x", "int">>>>, NilS, NilS, NilF, <<>>, NilF, <<>>, NilF, <<>>, <<>>)
-RA == RefOf(TA, "r")
-ModelLits == [k \in {"0", "1"} |-> IF k = "0" THEN 0 ELSE 1]
-L1 == Feat("lit", NilS, "", "int", "1", "", <<>>)
-L0 == Feat("lit", NilS, "", "int", "0", "", <<>>)
-Ax == Col(TA, "x")  Ay == Col(TA, "y")  Bx == Col(TB, "x")  Cx == Col(TC, "x")  Rx == Col(RA, "x")
-
-DomSeq == IF WithNull THEN <<0, 1, NULL>> ELSE <<0, 1>>
-\* every database with <= MaxRows rows per table, built as SEQUENCES (bags = non-decreasing tuples of row numbers)
-RECURSIVE RowSeq(_), BagSeq(_, _, _)
-RowSeq(n) == IF n = 0 THEN <<<<>>>>
-             ELSE Flat([i \in DOMAIN DomSeq |-> [j \in DOMAIN RowSeq(n - 1) |-> <<DomSeq[i]>> \o RowSeq(n - 1)[j]]])
-BagSeq(rows, k, lo) ==        \* all bags of exactly k rows whose row numbers are >= lo
+(* ------------- every database within a bound (sequences, built constructively) ------------- *)
+\* all rows of width n over the value sequence dom / all bags of exactly k such rows (non-decreasing row numbers)
+RECURSIVE RowSeq(_, _), BagSeq(_, _, _)
+RowSeq(n, dom) == IF n = 0 THEN <<<<>>>>
+                  ELSE LET rest == RowSeq(n - 1, dom) IN
+                       Flat([i \in DOMAIN dom |-> [j \in DOMAIN rest |-> <<dom[i]>> \o rest[j]]])
+BagSeq(rows, k, lo) ==
     IF k = 0 THEN <<<<>>>>
     ELSE Flat([i \in 1..(Len(rows) - lo + 1) |->
                  LET r == lo + i - 1 rest == BagSeq(rows, k - 1, r) IN [j \in DOMAIN rest |-> <<rows[r]>> \o rest[j]]])
-ContentSeq(n) == Flat([k \in 1..(MaxRows + 1) |-> BagSeq(RowSeq(n), k - 1, 1)])
-CA == ContentSeq(2)
-CB == ContentSeq(1)
-DbSeq == Flat([a \in DOMAIN CA |-> Flat([b \in DOMAIN CB |-> [c \in DOMAIN CB |-> [A |-> CA[a], B |-> CB[b], C |-> CB[c]]]])])
-\* statements over two tables never look at C: one content of C is enough for them
-DbSeq2 == Flat([a \in DOMAIN CA |-> [b \in DOMAIN CB |-> [A |-> CA[a], B |-> CB[b], C |-> <<>>]]])
-
-\* predicates: atoms over one table, over two tables, over a table and its reference
-RECURSIVE Preds(_, _)
-Preds(atoms, d) ==
-    IF d = 0 THEN atoms
-    ELSE LET sub == Preds(atoms, d - 1) IN
-         sub \cup {Op("not", <<a>>) : a \in sub}
-             \cup {Op(o, <<a, b>>) : o \in {"and", "or"}, a \in sub, b \in sub}
-Eq(a, b) == Op("eq", <<a, b>>)
-Lt(a, b) == Op("lt", <<a, b>>)
-AtomsAB == {Eq(Ax, L1), Eq(Bx, L1), Eq(Ax, Bx), Lt(Ax, Bx), Op("isnull", <<Bx>>), Eq(Ay, L0)}
-AtomsSmall == {Eq(Ax, L1), Eq(Bx, L1), Lt(Ax, Bx)}
-Kinds == {"inner", "left", "right", "full"}
-All(l) == QueryOf(l, <<>>, NilF, <<>>, NilF, <<>>, <<>>)
-Where(l, w) == QueryOf(l, <<>>, w, <<>>, NilF, <<>>, <<>>)
-SelWhere(l, sel, w) == QueryOf(l, sel, w, <<>>, NilF, <<>>, <<>>)
-
-Stmts ==
-    CASE Family = "where" ->       \* predicates in the where clause of a join of two tables (all kinds) and of one table
-           {Where(JoinOf(TA, TB, k, Lt(Ax, Bx)), w) : k \in Kinds, w \in Preds(AtomsAB, Depth)}
-           \cup {Where(JoinOf(TA, TB, "cross", NilF), w) : w \in Preds(AtomsSmall, Depth)}
-           \cup {Where(TA, w) : w \in Preds({Eq(Ax, L1), Eq(Ay, L0), Lt(Ax, Ay)}, Depth)}
-      [] Family = "on" ->          \* predicates as the join condition, projection of one column per side
-           {SelWhere(JoinOf(TA, TB, k, c), <<Ay, Bx>>, NilF) : k \in Kinds, c \in Preds(AtomsAB, Depth)}
-           \cup {All(JoinOf(TA, TB, k, c)) : k \in Kinds, c \in {Eq(Ax, Bx), Lt(Ax, Bx)}}
-      [] Family = "self" ->        \* self join through a reference, nested statement as an origin
-           {SelWhere(JoinOf(TA, RA, k, c), <<Ax, Rx>>, w) :
-                k \in {"inner", "left"}, c \in {Lt(Ax, Rx), Eq(Ay, Col(RA, "y"))},
-                w \in {NilF} \cup Preds({Eq(Ax, L1), Eq(Rx, L1)}, Depth)}
-           \cup {SelWhere(RA, <<Rx>>, w) : w \in {NilF, Eq(Rx, L1), Eq(Col(RA, "y"), L0)}}
-           \cup UNION {LET sub == RefOf(SelWhere(TA, <<Ax, Ay>>, w1), "s") IN
-                       {SelWhere(JoinOf(sub, TB, "inner", Lt(Col(sub, "x"), Bx)), <<Col(sub, "y"), Bx>>, w2) :
-                           w2 \in {NilF} \cup Preds({Eq(Bx, L1), Eq(Col(sub, "x"), L1)}, 1)} :
-                       w1 \in {NilF, Eq(Ax, L1)}}
-      [] Family = "three" ->       \* joins of three tables, conditions and where spanning them
-           {Where(JoinOf(JoinOf(TA, TB, k1, c1), TC, k2, c2), w) :
-                k1 \in {"inner", "left"}, k2 \in {"inner", "left", "right"},
-                c1 \in {Eq(Ax, Bx), Lt(Ax, Bx)}, c2 \in {Eq(Bx, Cx), Op("and", <<Lt(Ax, Cx), Eq(Cx, L1)>>)},
-                w \in {NilF} \cup Preds({Eq(Ax, L1), Eq(Cx, L1)}, Depth)}
-      [] OTHER -> {}
-Dbs == IF Family = "three" THEN DbSeq ELSE DbSeq2
-
-VARIABLES stmt,     \* the statement under judgement
-          dbi,      \* number of databases judged so far
-          unsafe,   \* how many of them the as-is hints were unsafe on
-          first     \* the first such database (0: none)
-vars == <<stmt, dbi, unsafe, first>>
-Stmt == stmt
-Impl == ImplHints(Stmt)
-Init == stmt \in Stmts /\ dbi = 0 /\ unsafe = 0 /\ first = 0
-\* one step per database: the universally quantified db of Safe
-NextDb == /\ dbi < Len(Dbs)
-          /\ dbi' = dbi + 1
-          /\ LET ok == Impl.crash # "" \/ SafeOn(Stmt, Impl.hints, Dbs[dbi + 1]) IN
-                /\ unsafe' = unsafe + (IF ok THEN 0 ELSE 1)
-                /\ first' = IF ~ok /\ first = 0 THEN dbi + 1 ELSE first
-          /\ UNCHANGED stmt
-Next == NextDb
-Spec == Init /\ [][Next]_vars
-
-\* every statement is WellFormed (the family is inside the grammar) - a broken generator is a machinery error
-FamilyWellFormed == WellFormed(Stmt)
-\* the clauses of the property as invariants of the AS-IS hints (expected to be violated where the code is
-\* defective; the driver runs them as exports, one verdict per statement, not as stoppers)
-ImplParses == Impl.crash = ""
-ImplScoped == AllScoped(Impl.hints)
-ImplComplete == Impl.crash = "" => ColumnsComplete(Stmt, Impl.hints)
-ImplSafe == unsafe = 0
-\* verdict of a statement once every database was judged
-Export ==
-    dbi = Len(Dbs) =>
-        PrintT(ToJson([ast |-> Stmt,
-                       verdict |-> <<Impl.crash, B(ImplScoped), B(ImplComplete), unsafe, first>>,
-                       hints |-> [h \in DOMAIN Impl.hints |->
-                                     [path |-> Impl.hints[h].path, table |-> Impl.hints[h].table.name,
-                                      cols |-> Impl.hints[h].cols, factors |-> Impl.hints[h].factors]]]))
-Post == PrintT(<<"FAMILY", Cardinality(Stmts), Len(Dbs), TLCGet("distinct")>>)
+ContentSeq(n, maxrows, dom) == Flat([k \in 1..(maxrows + 1) |-> BagSeq(RowSeq(n, dom), k - 1, 1)])
+\* tables: sequence of <<name, width>>; the result is a sequence of functions name |-> rows
+RECURSIVE Universe(_, _, _)
+Universe(tables, maxrows, dom) ==
+    IF tables = <<>> THEN << <<>> >>
+    ELSE LET rest == Universe(Tail(tables), maxrows, dom)
+             mine == ContentSeq(Head(tables)[2], maxrows, dom)
+         IN Flat([a \in DOMAIN mine |-> [b \in DOMAIN rest |-> (Head(tables)[1] :> mine[a]) @@ rest[b]]])
 =============================================================================
